@@ -28,6 +28,9 @@ func runC02(r *Run) {
 	r.checkChrono(P, "sortOperations@metadata", r.fn(P, pkgMetadata, "sortOperations"))
 	r.checkCreateOrder(P)
 	r.checkSortedBeforeGroup(P)
+	// the update filter "anchored after the last full operation" decides which
+	// candidates compete: its coordinates must be those of the applied operation
+	r.checkProvenance(P, map[string]bool{"LastOperationTransactionTime": true, "LastOperationTransactionNumber": true})
 	r.checkFirstApplicable(P, "OperationProcessor.applyFirstValidOperation")
 	r.checkFirstApplicable(P, "OperationProcessor.applyFirstValidCreateOperation")
 	if r.Universal {
